@@ -105,6 +105,67 @@ theorem C18_linearizable (m0 : Map) (progs : List (List Op)) (sched : List Nat) 
   | nil => intro s h; exact h
   | cons i sched ih => intro s h; exact ih _ (inv_step m0 s i h)
 
+/-- **C18 (a lookup returns its own key's value).** Whatever content a lookup
+    is linearized at: the value it returns is stored under the key it asked
+    for.  With `C18_linearizable` (every returned value is the sequential
+    map's at the linearization point) this is the engine's
+    `free:lookup-not-atomic` clause "a get never returns another key's value". -/
+theorem C18_lookup_own_key (k v : Nat) (m : Map) (h : lookup k m = some v) : (k, v) ∈ m := by
+  induction m with
+  | nil => simp [lookup] at h
+  | cons e m ih =>
+    unfold lookup at h
+    by_cases hk : e.1 = k
+    · rw [if_pos hk] at h
+      have hv : e.2 = v := by simpa using h
+      have : e = (k, v) := by cases e; simp_all
+      simp [this]
+    · rw [if_neg hk] at h
+      exact List.mem_cons_of_mem _ (ih h)
+
+/-- **C18 (a lookup finds a key that is there).** If the content a lookup is
+    linearized at holds the key, the lookup does not answer "absent": a key
+    that is in every published content is found by every lookup, wherever the
+    writers have moved it (the engine's pinned key). -/
+theorem C18_lookup_finds (k : Nat) (m : Map) (h : ∃ v, (k, v) ∈ m) : (lookup k m).isSome = true := by
+  obtain ⟨v, hv⟩ := h
+  induction m with
+  | nil => simp at hv
+  | cons e m ih =>
+    unfold lookup
+    by_cases hk : e.1 = k
+    · simp [hk]
+    · rw [if_neg hk]
+      rcases List.mem_cons.mp hv with h1 | h1
+      · exact absurd (by rw [← h1]) hk
+      · exact ih h1
+
+/-- A write of another key, a removal of another key, a `retain` that keeps the
+    key and a whole-map replace that carries it all leave the key in the
+    content: the hypothesis of `C18_lookup_finds` holds along the engine's
+    free-running histories. -/
+theorem insertKV_keeps (k k' v v' : Nat) (m : Map) (h : (k, v) ∈ m) (hne : k' ≠ k) : (k, v) ∈ insertKV k' v' m := by
+  unfold insertKV
+  apply List.mem_append_left
+  exact List.mem_filter.mpr ⟨h, by simp; exact fun e => hne e.symm⟩
+
+theorem removeFirst_keeps (k k' v : Nat) (m : Map) (h : (k, v) ∈ m) (hne : k' ≠ k) : (k, v) ∈ removeFirst k' m := by
+  induction m with
+  | nil => simp at h
+  | cons e m ih =>
+    unfold removeFirst
+    by_cases hk : e.1 = k'
+    · rw [if_pos hk]
+      rcases List.mem_cons.mp h with h1 | h1
+      · exact absurd (by rw [← h1] at hk; exact hk.symm) hne
+      · exact h1
+    · rw [if_neg hk]
+      rcases List.mem_cons.mp h with h1 | h1
+      · rw [h1]; exact List.mem_cons_self
+      · exact List.mem_cons_of_mem _ (ih h1)
+
+example : lookup 9 [(1, 1000007), (9, 9000003), (2, 2000008)] = some 9000003 := by decide
+
 /-- **C18 (snapshot).** An iteration (`guard()`) is a single load: what it
     returns is the content the sequential map has at its linearization point. -/
 theorem C18_snapshot (v : Variant) (s : Sys) (i : Nat) (t : Thread) (rest : List Op)
